@@ -255,6 +255,18 @@ impl<'tcx> Cx<'tcx> {
                         }
                     }
                 }
+                if let Const::Ty(_, ct) = c {
+                    // pattern constants (`match s { "define" => .. }`) are valtrees
+                    if let Some(v) = ct.try_to_value() {
+                        if let Some(bytes) = v.try_to_raw_bytes(tcx) {
+                            if bytes.len() <= 4096 && !extra.contains("\"bits\"") {
+                                if let Ok(s) = std::str::from_utf8(bytes) {
+                                    let _ = write!(extra, ",\"str\":{}", js(s));
+                                }
+                            }
+                        }
+                    }
+                }
                 if let Const::Unevaluated(uv, _) = c {
                     let _ = write!(extra, ",\"uneval\":{}", js(&self.path(uv.def)));
                     if let Some(p) = uv.promoted {
